@@ -46,7 +46,7 @@ class BusProtocol (txdbus.protocol.BasicDBusProtocol):
         self.uniqueName = None
         self.busNames = {}  # name => allow_replacement
         self.bus = self.factory.bus
-        self.matchRules = set()
+        self.matchRules = {}  # rule text => ids of the router's rules
         self.isConnected = True
 
     def connectionLost(self, reason):
@@ -184,8 +184,9 @@ class Bus (objects.DBusObject):
         """
         Called when a client disconnects from the bus
         """
-        for rule_id in proto.matchRules:
-            self.router.delMatch(rule_id)
+        for rule_ids in proto.matchRules.values():
+            for rule_id in rule_ids:
+                self.router.delMatch(rule_id)
 
         # snapshot: ReleaseName drops the entries it is given
         for busName in list(proto.busNames.keys()):
@@ -512,7 +513,26 @@ class Bus (objects.DBusObject):
                         kwargs['args'] = []
                     kwargs['args'].append((int(k[3:]), value))
 
-        self.router.addMatch(caller.sendMessage, **kwargs)
+        rule_id = self.router.addMatch(caller.sendMessage, **kwargs)
+
+        # remembered for RemoveMatch and for the cleanup on disconnect
+        caller.matchRules.setdefault(rule, []).append(rule_id)
+
+    def dbus_RemoveMatch(self, rule, dbusCaller=None):
+        caller = self.clients[dbusCaller]
+
+        rule_ids = caller.matchRules.get(rule)
+
+        if not rule_ids:
+            raise DError(
+                'org.freedesktop.DBus.Error.MatchRuleNotFound',
+                'The given match rule was not found: %s' % (rule,),
+            )
+
+        self.router.delMatch(rule_ids.pop())
+
+        if not rule_ids:
+            del caller.matchRules[rule]
 
     def dbus_GetNameOwner(self, busName):
         if busName.startswith(':'):
